@@ -13,7 +13,7 @@ Init == rs = <<>> /\ kind \in Kinds /\ pos \in Positions /\ done = FALSE
 OpensOf(r) == IF r.k \in {"out", "err"} /\ r.f \in Files THEN {r.f} ELSE {}
 InputOK(r) == r.k \in {"in", "here"} =>
                 /\ kind = "ext"
-                /\ \A i \in 1..Len(rs) : rs[i].k \notin {"in", "here"}
+                /\ Cardinality({i \in 1..Len(rs) : rs[i].k \in {"in", "here"}}) <= 1          \* at most two input redirections per command
                 /\ (r.k = "in" /\ r.f = "f1" => \A i \in 1..Len(rs) : OpensOf(rs[i]) # {"f1"})
 Add(r) == /\ ~done /\ Len(rs) < MaxR
           /\ \A i \in 1..Len(rs) : OpensOf(rs[i]) \cap OpensOf(r) = {}     \* a file is opened once per command
